@@ -83,6 +83,7 @@ func verifDateArith(c verifCivil, n int, ui int) time.Time {
 // Window: years 2019..2024; |amount| <= 13 (months/years) or <= 61 (days/weeks) in the quick tier.
 func verifDateAddSub(sub bool) {
 	verifSplitYM = true
+	verifrt.SplitCalendar()
 	d, c := verifDate("d")
 	ui := verifrt.Choose("unit", len(verifDateUnits)/verifrt.Bound(2, 1)) * verifrt.Bound(2, 1) // quick: singular keywords only
 	lim := verifrt.Bound(13, 25)
@@ -123,6 +124,7 @@ func VerifHarness_C09_DateSub() { verifDateAddSub(true) }
 // precision, month/year units), and the result is monotone in the amount.
 func VerifHarness_C09_DateRoundTripMonotone() {
 	verifSplitYM = true
+	verifrt.SplitCalendar()
 	d, c := verifDate("d")
 	verifrt.Assume(c.rank >= 1)
 	var unit string
@@ -150,6 +152,7 @@ func VerifHarness_C09_DateRoundTripMonotone() {
 // C09-B: DateTime + / - calendar and clock units at every precision (no offset): same precision, equals the reference.
 func verifDateTimeAddSub(sub bool) {
 	verifSplitYM = true
+	verifrt.SplitCalendar()
 	var dt DateTime
 	var c verifCivil
 	if verifrt.Thorough() {
